@@ -6,12 +6,14 @@ from vf.tape import Fail, notrace
 
 PROPERTY = 'C16'
 SLOTS = [('e0', '/'), ('e0', '/a'), ('e1', '/')]
-KINDS = ['connect', 'save', 'save-empty', 'block', 'nested-block', 'client-disconnect', 'server-disconnect']
+KINDS = ['connect', 'save', 'save-empty', 'block', 'nested-block', 'block-left-by-exception', 'client-disconnect',
+         'server-disconnect']
 OPS = [(k, i) for k in KINDS for i in range(len(SLOTS))] + [('lose-reopen', 'e0'), ('lose-reopen', 'e1')]
 
 
 def h(t, part):
     asyncio_ = part['async']
+    seen_in_handler = []
     with notrace():
         w = worlds.SWorld(asyncio_, async_handlers=False)
         for ns in ('/', '/a'):
@@ -22,6 +24,13 @@ def h(t, part):
                 def on_connect(sid, environ):
                     return None
             w.s.on('connect', on_connect, namespace=ns)
+            if asyncio_:
+                async def on_disconnect(sid, reason, ns=ns):
+                    seen_in_handler.append((sid, await w.s.get_session(sid, namespace=ns)))
+            else:
+                def on_disconnect(sid, reason, ns=ns):
+                    seen_in_handler.append((sid, w.s.get_session(sid, namespace=ns)))
+            w.s.on('disconnect', on_disconnect, namespace=ns)
         live = {}
         for e in ('e0', 'e1'):
             w.open(e)
@@ -120,6 +129,24 @@ def h(t, part):
             model[sid]['o%d' % step] = v
             model[sid]['i%d' % step] = 7
             saved_once = True
+        elif kind == 'block-left-by-exception':
+            v = t.int(-3, 3)
+            try:
+                if asyncio_:
+                    async def go():
+                        async with w.s.session(sid, namespace=ns) as sess:
+                            sess['x%d' % step] = v
+                            raise KeyError('application error inside the block')
+                    w.call(go())
+                else:
+                    with w.s.session(sid, namespace=ns) as sess:
+                        sess['x%d' % step] = v
+                        raise KeyError('application error inside the block')
+            except KeyError:
+                pass
+            model[sid] = dict(model[sid])
+            model[sid]['x%d' % step] = v
+            saved_once = True
         elif kind == 'block':
             v = t.int(-3, 3)
             block(sid, ns, 'm%d' % step, v)
@@ -127,11 +154,21 @@ def h(t, part):
             model[sid]['m%d' % step] = v
             saved_once = True
         elif kind == 'client-disconnect':
+            del seen_in_handler[:]
             w.send(e, w.P(packet.DISCONNECT, namespace=ns))
+            if w.eio.contained or [x for x in seen_in_handler if not (x[1] == model[sid])]:
+                return Fail('session:not-readable-in-disconnect-handler', 'handler saw %r, contained %r, expected %r' % (
+                    seen_in_handler, w.eio.contained[-1:], model[sid]))
             live[(e, ns)] = None
             ended_ns.add((e, ns))
         elif kind == 'server-disconnect':
-            w.call(w.s.disconnect(sid, namespace=ns))
+            del seen_in_handler[:]
+            try:
+                w.call(w.s.disconnect(sid, namespace=ns))
+            except KeyError as ex:
+                return Fail('session:not-readable-in-disconnect-handler', repr(ex))
+            if [x for x in seen_in_handler if not (x[1] == model[sid])]:
+                return Fail('session:not-readable-in-disconnect-handler', 'handler saw %r, expected %r' % (seen_in_handler, model[sid]))
             live[(e, ns)] = None
             ended_ns.add((e, ns))
         r = check_all('after step %d (%s %s %s)' % (step, kind, e, ns))
@@ -147,14 +184,14 @@ def parts(tier):
     return [{'async': a, 'n': n, 'first': f} for a in (False, True) for f in range(len(OPS))]
 
 
-CHECKS = [dict(name='sessions', fn=h, parts=parts, budget={'quick': 60, 'thorough': 900})]
+CHECKS = [dict(name='sessions', fn=h, parts=parts, budget={'quick': 180, 'thorough': 900})]
 
 META = dict(
     explanation='Real get_session/save_session/session() of Server and AsyncServer on the fake engine.io session store, '
                 'against a reference map sid -> contents; after every operation every live session is read back.',
     bounds={'quick': 'histories of 3 operations from {CONNECT, save_session, session() block, client DISCONNECT, '
                      'server.disconnect} x 3 slots (e0:/, e0:/a, e1:/) + {transport loss and re-open} x 2 transports, '
-                     'starting with all three slots connected; also save_session({}) and two nested session() blocks; session '
+                     'starting with all three slots connected; also save_session({}), two nested session() blocks, a block left by an exception, and a disconnect handler reading the session; session '
                      'values are dicts with a symbolic int',
             'thorough': 'same with 4 operations'},
     outside=['session contents other than small dicts', 'concurrent access to one session'],
